@@ -60,8 +60,8 @@
 #define MS 1000000ULL
 #define LATE_NS (5 * MS)
 
-enum { K_CORRECT, K_DUP, K_STALE, K_OTHER, K_NOBIT, K_LATE, K_MID, K_ECHO, K_N };
-static const char *kname[K_N] = { "correct", "dup", "stale", "other-ctx", "nobit", "late", "mid", "echo" };
+enum { K_CORRECT, K_DUP, K_STALE, K_OTHER, K_NOBIT, K_LATE, K_MID, K_ECHO, K_FAKE, K_HOP, K_N };
+static const char *kname[K_N] = { "correct", "dup", "stale", "other-ctx", "nobit", "late", "mid", "echo", "never-issued-id", "hop-before-id" };
 
 enum { D_PROMPT, D_SLOW, D_SILENT, D_LATE, D_MID, D_N };
 static const char *dname[D_N] = { "prompt", "slow", "silent", "late", "mid" };
@@ -73,6 +73,8 @@ enum { AK_NONE, AK_TCP, AK_XRESP };
 static const char *akname[3] = { "none", "tcpadv", "xresp" };
 
 enum { OP_COLLECT, OP_MIXED, OP_SUPERSEDE, OP_SENDOVER, OP_SENDOVER_DL, OP_ABORT, OP_QUICK, OP_PROBE, OP_N };
+enum { TM_EXPLICIT, TM_INHERIT, TM_DEFAULT, TM_N }; // where a context's survey time comes from
+static const char *tmname[TM_N] = { "set-per-survey", "inherited-from-socket", "default-1s" };
 static const char *opname[OP_N] = { "collect", "mixed-timeouts", "supersede", "send-over-recv", "send-over-recv-at-deadline", "abort", "quick", "probe" };
 
 enum { DUE_NOW, DUE_REL, DUE_LATE, DUE_MID };
@@ -82,10 +84,14 @@ typedef struct {
 	int      nwork[MAXREAL];
 	bool     resp_sock[MAXREAL];
 	bool     use_sock, kills;
+	int      tmode[MAXCTX];
+	uint32_t sock_T;
 	int      jit_permille, jit_us, exp_permille, exp_min_us, exp_us;
 	uint32_t nonce;
 	uint64_t key;
 } casecfg;
+
+static int dbg_off; // debugging: C07_OFF bit mask switches extensions off
 
 static uint32_t
 get32(const uint8_t *p)
@@ -130,6 +136,8 @@ typedef struct {
 	_Atomic uint32_t ctx, seq, klass, src;
 	_Atomic uint32_t delivered;
 	_Atomic uint32_t conn; // which connection / worker wrote it (diagnostics)
+	_Atomic uint32_t pipe; // frames with the same value travel one FIFO pipe to the surveyor
+	_Atomic uint64_t t_dlv; // when the receive that got it was seen complete (0: not delivered)
 } rrec;
 
 static struct {
@@ -144,7 +152,7 @@ static struct {
 } G;
 
 static uint32_t
-rr_alloc(uint32_t c, uint32_t s, int klass, int src, uint32_t conn)
+rr_alloc(uint32_t c, uint32_t s, int klass, int src, uint32_t conn, uint32_t pipe)
 {
 	uint32_t serial = atomic_fetch_add(&G.rr_n, 1);
 	if (serial >= G.rr_cap) vf_harness_fail("response table full (%u)", serial);
@@ -154,6 +162,7 @@ rr_alloc(uint32_t c, uint32_t s, int klass, int src, uint32_t conn)
 	atomic_store(&e->klass, (uint32_t) klass);
 	atomic_store(&e->src, (uint32_t) src);
 	atomic_store(&e->conn, conn);
+	atomic_store(&e->pipe, pipe);
 	return serial;
 }
 
@@ -208,6 +217,7 @@ build_resp(uint8_t *buf, uint32_t c, uint32_t s, int klass, uint32_t serial)
 // ------------------------------------------------------------ adversary
 typedef struct {
 	uint32_t idword, c, s;
+	uint32_t pre; // K_HOP: a word without the high bit in front of the id
 	int      klass, due_kind;
 	uint64_t due; // DUE_REL: ns from now; afterwards: absolute
 } pframe;
@@ -217,6 +227,7 @@ static struct {
 	vf_rng          rng;
 	uint32_t        latest[MAXCTX];
 	bool            kills;
+	uint32_t        first_id; // first survey id seen on the wire (ids are handed out consecutively)
 	long            inj[K_N], late_written[K_N], seen, killed, unpublished;
 	bool            inj_state[3][K_N]; // target survey: old / latest / expired-latest
 } A;
@@ -231,6 +242,7 @@ adv_init(const casecfg *cc)
 	memset(A.late_written, 0, sizeof(A.late_written));
 	memset(A.inj_state, 0, sizeof(A.inj_state));
 	A.kills = cc->kills;
+	A.first_id = 0;
 	A.seen = A.killed = A.unpublished = 0;
 }
 
@@ -258,17 +270,35 @@ adv_extra(uint32_t cur_c, pframe *f)
 		if (A.latest[c] < 1) return 0;
 		s = A.latest[c];
 		f->klass = K_OTHER;
-	} else {
+	} else if (u < 84) {
 		// a seen id without the high bit
 		c = vf_below(r, (uint32_t) G.nctx);
 		if (A.latest[c] < 1) return 0;
 		s = A.latest[c] - (A.latest[c] > 1 && vf_chance(r, 1, 2) ? 1 : 0);
 		f->klass = K_NOBIT;
+	} else if (u < 92) {
+		// an id with the high bit that this socket certainly never issued: ids
+		// are allocated consecutively (from a random start, wrapping after
+		// 2^31), so anything well below the first one seen is unused
+		if (A.first_id == 0 || A.latest[cur_c] < 1) return 0;
+		c = cur_c;
+		s = A.latest[c];
+		f->klass = K_FAKE;
+	} else {
+		// a live id preceded by a peer-id word, as if a device had forgotten
+		// to pop it: the first word is what the surveyor must look at
+		c = cur_c;
+		if (A.latest[c] < 1) return 0;
+		s = A.latest[c];
+		f->klass = K_HOP;
 	}
 	srec *e = st_get(c, s);
 	uint32_t id = e ? atomic_load(&e->id) : 0;
 	if (id == 0) return 0; // never saw that one on the wire
 	f->idword = f->klass == K_NOBIT ? (id & 0x7fffffffu) : id;
+	f->pre = 0;
+	if (f->klass == K_FAKE) f->idword = 0x80000000u | ((A.first_id - 1000 - vf_below(r, 1u << 20)) & 0x7fffffffu);
+	if (f->klass == K_HOP) f->pre = (uint32_t) vf_rand(r) & 0x7fffffffu;
 	f->c = c;
 	f->s = s;
 	return 1;
@@ -284,6 +314,7 @@ adv_plan(uint32_t id, uint32_t c, uint32_t s, int dir, pframe *out, bool *kill)
 	srec *e = st_get(c, s);
 	if (e == NULL) vf_harness_fail("adversary saw survey ctx %u seq %u outside the table", c, s);
 	atomic_store(&e->id, id);
+	if (A.first_id == 0) A.first_id = id;
 	if (s > A.latest[c]) A.latest[c] = s;
 	A.seen++;
 	uint32_t k = vf_below(r, 100);
@@ -291,6 +322,7 @@ adv_plan(uint32_t id, uint32_t c, uint32_t s, int dir, pframe *out, bool *kill)
 	for (int i = 0; i < npre; i++) n += adv_extra(c, &out[n]);
 	pframe *f = &out[n];
 	f->idword = id;
+	f->pre = 0;
 	f->c = c;
 	f->s = s;
 	f->due = 0;
@@ -422,15 +454,17 @@ static _Thread_local uint32_t my_conn; // id of the connection this thread serve
 static int
 tcp_emit(int fd, const pframe *f)
 {
-	uint8_t  buf[8 + 4 + 128];
-	uint32_t serial = rr_alloc(f->c, f->s, f->klass, SRC_TCP, my_conn);
-	size_t   bl = build_resp(buf + 12, f->c, f->s, f->klass, serial);
+	uint8_t  buf[8 + 8 + 128];
+	uint32_t serial = rr_alloc(f->c, f->s, f->klass, SRC_TCP, my_conn, my_conn);
+	size_t   hl = f->klass == K_HOP ? 8 : 4;
+	size_t   bl = build_resp(buf + 8 + hl, f->c, f->s, f->klass, serial);
 	memset(buf, 0, 8);
-	put32(buf + 4, (uint32_t) (bl + 4));
-	put32(buf + 8, f->idword);
+	put32(buf + 4, (uint32_t) (bl + hl));
+	if (hl == 8) put32(buf + 8, f->pre);
+	put32(buf + 4 + hl, f->idword);
 	uint64_t tb = vf_now_ns();
 	atomic_store(&G.rr[serial].t_before, tb);
-	int rv = vf_fd_write_all(fd, buf, 12 + bl, 5000);
+	int rv = vf_fd_write_all(fd, buf, 8 + hl + bl, 5000);
 	if (rv == 0) atomic_store(&G.rr[serial].t_after, vf_now_ns());
 	dbg_ev(fd, "emit", serial, f->c, f->s);
 	adv_account(f, tb);
@@ -562,10 +596,11 @@ xresp_emit(uint32_t pipe, const pframe *f)
 {
 	nng_msg *m;
 	uint8_t  buf[128];
-	uint32_t serial = rr_alloc(f->c, f->s, f->klass, SRC_XRESP, pipe);
+	uint32_t serial = rr_alloc(f->c, f->s, f->klass, SRC_XRESP, pipe, pipe);
 	size_t   bl = build_resp(buf, f->c, f->s, f->klass, serial);
 	if (nng_msg_alloc(&m, 0) != 0) vf_harness_fail("msg alloc");
 	nng_msg_header_append_u32(m, pipe);
+	if (f->klass == K_HOP) nng_msg_header_append_u32(m, f->pre);
 	nng_msg_header_append_u32(m, f->idword);
 	nng_msg_append(m, buf, bl);
 	uint64_t tb = vf_now_ns();
@@ -650,11 +685,14 @@ xresp_thread(void *arg)
 // ------------------------------------------------------------ real respondents
 typedef struct {
 	nng_socket s;
+	int        sock_idx;
 	nng_ctx    ctx;
 	bool       is_sock;
 	pthread_t  thr;
 	vf_rng     rng;
 	long       served, silent, late_sent, send_fail;
+	_Atomic int  state; // 0 receiving, 1 waiting to answer, 2 sending
+	_Atomic long got, sent_ok, sent_err, last_err;
 } rworker;
 
 static struct {
@@ -702,11 +740,14 @@ real_worker(void *arg)
 			continue;
 		}
 		nng_msg_free(m);
+		atomic_fetch_add(&w->got, 1);
+		atomic_store(&w->state, 1);
 		uint32_t c = tag & 0xff, s = (uint32_t) seq, T;
 		int      dir = (int) ((tag >> 8) & 0xff);
 		uint64_t tc, tr;
 		if (dir == D_SILENT) {
 			w->silent++; // never answered; the next receive replaces it
+			atomic_store(&w->state, 0);
 			continue;
 		}
 		if (dir == D_SLOW) {
@@ -721,7 +762,7 @@ real_worker(void *arg)
 			if (atomic_load(&G.stop)) break;
 		}
 		uint8_t  buf[128];
-		uint32_t serial = rr_alloc(c, s, K_ECHO, SRC_REAL, 1000 + (uint32_t) (w - P.w));
+		uint32_t serial = rr_alloc(c, s, K_ECHO, SRC_REAL, 1000 + (uint32_t) (w - P.w), 2000 + (uint32_t) w->sock_idx);
 		size_t   bl = build_resp(buf, c, s, K_ECHO, serial);
 		if (nng_msg_alloc(&m, 0) != 0) vf_harness_fail("msg alloc");
 		nng_msg_append(m, buf, bl);
@@ -729,6 +770,7 @@ real_worker(void *arg)
 		nng_aio_set_timeout(aio, 10000);
 		uint64_t tb = vf_now_ns();
 		atomic_store(&G.rr[serial].t_before, tb);
+		atomic_store(&w->state, 2);
 		if (w->is_sock) {
 			nng_socket_send(w->s, aio);
 		} else {
@@ -739,10 +781,15 @@ real_worker(void *arg)
 			if ((m = nng_aio_get_msg(aio)) != NULL) nng_msg_free(m);
 			nng_aio_set_msg(aio, NULL);
 			w->send_fail++;
+			atomic_fetch_add(&w->sent_err, 1);
+			atomic_store(&w->last_err, rv);
+			atomic_store(&w->state, 0);
 			if (rv == NNG_ECLOSED) break;
 			continue;
 		}
 		atomic_store(&G.rr[serial].t_after, vf_now_ns());
+		atomic_fetch_add(&w->sent_ok, 1);
+		atomic_store(&w->state, 0);
 		w->served++;
 		if (certainly_late(c, s, tb)) w->late_sent++;
 	}
@@ -775,24 +822,39 @@ typedef struct cthr {
 	int      dir, op;
 	bool     tainted; // a receive on it timed out by itself / was cancelled
 	uint64_t taint_at;
+	int          tmode;    // TM_*
+	uint32_t     T_fixed;  // survey time of a context that never sets the option
+	nng_duration rcvtimeo; // NNG_OPT_RECVTIMEO in force (what NNG_DURATION_DEFAULT means)
+	int          rounds;
+	bool         opt_changed; // the survey-time option was changed after the current survey was sent
 	uint32_t scan_from;
+	struct {
+		int      tmo, tmo_eff, rv, kind; // kind: 0 aio, 1 sync, 2 nonblock, +4 multi
+		uint32_t at_us, done_us;
+	} rlog[12];
+	int      nlog;
 	int      nrecv;                     // receives issued on the current survey
 	uint64_t first_rstart, last_rstart; // diagnostics
 	// evidence
 	long dlv[K_N], ops[OP_N], dirs[D_N], surveys, estate_never, estate_expired, estate_ambiguous, deadline_timeouts, own_timeouts, clamp_by[4], cancelled_by_send,
-	    completed_before_send, cancel_won, cancel_lost, must_checked, must_rounds, after_taint[3], fresh_probes, expiry_probe_msgs, idle_expiries, lost_unconfirmed;
+	    completed_before_send, cancel_won, cancel_lost, must_checked, must_rounds, after_taint[3], fresh_probes, expiry_probe_msgs, idle_expiries, lost_unconfirmed, multi_posted, multi_timeouts, multi_msgs, multi_cancelled, sync_recvs, sync_res[4],
+	    nonblock_recvs, nonblock_again, nonblock_msgs, rcvtimeo_own, rcvtimeo_clamped, opt_changes, opt_change_deadlines, huge_rounds, huge_msgs, surveys_by_tm[TM_N], deadline_by_tm[TM_N],
+	    old_before_new;
 	bool dlv_seen[OP_N][K_N], res_seen[OP_N][D_N][4];
 } cthr;
 
 // one receive operation and the survey state it was issued under
 typedef struct {
 	rop     *o;
-	int      tmo;
-	uint64_t t_rcall, t_rstarted, t_cancel;
+	int      tmo;     // what the aio was given
+	int      tmo_eff; // what that means (NNG_DURATION_DEFAULT -> NNG_OPT_RECVTIMEO)
+	uint64_t t_rcall, t_rstarted, t_cancel, t_done;
 	uint32_t seq, T;
 	uint64_t t_call, t_ret;
-	bool     tainted, cancelled;
+	bool     tainted, cancelled, sync, nonblock, multi, opt_changed;
 } rcv;
+
+static void rlog_dump(cthr *t);
 
 static void
 rop_cb(void *arg)
@@ -853,12 +915,14 @@ r_start(cthr *t, rcv *rc, int tmo, const nng_ctx *other)
 	memset(rc, 0, sizeof(*rc));
 	rc->o = o;
 	rc->tmo = tmo;
+	rc->tmo_eff = tmo == NNG_DURATION_DEFAULT ? (other == NULL ? t->rcvtimeo : NNG_DURATION_INFINITE) : tmo;
 	if (other == NULL) {
 		rc->seq = t->seq;
 		rc->T = t->T;
 		rc->t_call = t->t_call;
 		rc->t_ret = t->t_ret;
 		rc->tainted = t->tainted;
+		rc->opt_changed = t->opt_changed;
 	}
 	nng_aio_set_timeout(o->aio, tmo);
 	rc->t_rcall = vf_now_ns();
@@ -907,8 +971,8 @@ r_wait(cthr *t, rcv *rc, nng_msg **mp)
 	if (rc->seq != 0) {
 		latest = rc->t_ret + (uint64_t) rc->T * MS;
 		if (latest < rc->t_rstarted) latest = rc->t_rstarted;
-		if (rc->tmo > 0 && rc->t_rstarted + (uint64_t) rc->tmo * MS < latest) {
-			latest = rc->t_rstarted + (uint64_t) rc->tmo * MS;
+		if (rc->tmo_eff > 0 && rc->t_rstarted + (uint64_t) rc->tmo_eff * MS < latest) {
+			latest = rc->t_rstarted + (uint64_t) rc->tmo_eff * MS;
 			own = true;
 		}
 	}
@@ -925,6 +989,7 @@ r_wait(cthr *t, rcv *rc, nng_msg **mp)
 		while (!o->done) pthread_cond_wait(&o->cv, &o->m);
 	}
 	pthread_mutex_unlock(&o->m);
+	rc->t_done = o->t_done;
 	int rv = nng_aio_result(o->aio);
 	*mp = nng_aio_get_msg(o->aio);
 	nng_aio_set_msg(o->aio, NULL);
@@ -940,7 +1005,7 @@ r_wait(cthr *t, rcv *rc, nng_msg **mp)
 
 // A receive returned a message; acceptable survey numbers are e1 / e2.
 static bool
-judge_msg(cthr *t, nng_msg *m, uint32_t e1, uint32_t e2)
+judge_msg(cthr *t, nng_msg *m, uint32_t e1, uint32_t e2, uint64_t t_done)
 {
 	const uint8_t *b = nng_msg_body(m);
 	size_t         len = nng_msg_len(m);
@@ -958,9 +1023,15 @@ judge_msg(cthr *t, nng_msg *m, uint32_t e1, uint32_t e2)
 	uint64_t tb = atomic_load(&e->t_before);
 	bool     bad = true;
 	srec    *sv = st_get(c, seq);
-	atomic_store(&e->delivered, 1);
-	if (kl == K_NOBIT) {
+	if (atomic_load(&e->t_dlv) == 0) atomic_store(&e->t_dlv, t_done);
+	if (atomic_exchange(&e->delivered, 1) != 0) {
+		snprintf(key, sizeof(key), "C07/delivered-twice/%s", kname[kl]);
+		vf_violation(key, "ctx %d op %s: response frame #%u (%s, for ctx %u survey %u) was handed to a receive a second time", t->idx, opname[t->op], serial, kname[kl], c, seq);
+	} else if (kl == K_NOBIT) {
 		vf_violation("C07/unknown-id-delivered/nobit", "ctx %d (survey %u): a frame whose id word lacks the high bit (copy of ctx %u survey %u's id) was delivered", t->idx, t->seq, c, seq);
+	} else if (kl == K_FAKE || kl == K_HOP) {
+		snprintf(key, sizeof(key), "C07/unknown-id-delivered/%s", kname[kl]);
+		vf_violation(key, "ctx %d (survey %u): a frame whose first word is %s was delivered (body names ctx %u survey %u)", t->idx, t->seq, kl == K_FAKE ? "an id this socket never issued" : "a peer id, not a survey id", c, seq);
 	} else if ((int) c != t->idx) {
 		snprintf(key, sizeof(key), "C07/wrong-context/%s", kname[kl]);
 		vf_violation(key, "ctx %d (most recent survey %u) was handed response frame #%u (%s) that answers ctx %u survey %u", t->idx, t->seq, serial, kname[kl], c, seq);
@@ -968,6 +1039,12 @@ judge_msg(cthr *t, nng_msg *m, uint32_t e1, uint32_t e2)
 		snprintf(key, sizeof(key), "C07/stale-delivered/%s/%s", kname[kl], opname[t->op]);
 		vf_violation(key, "ctx %d op %s: most recent survey is %u but response frame #%u (%s) for survey %u was delivered (written %lld us after survey %u was sent)", t->idx, opname[t->op],
 		    e2, serial, kname[kl], seq, (long long) ((int64_t) (tb - t->t_ret) / 1000), t->seq);
+	} else if (seq != e2 && tb > t->t_ret) {
+		// accepted as "completed before the new survey went out", but the
+		// frame did not exist yet when the new survey's send returned
+		snprintf(key, sizeof(key), "C07/stale-delivered/%s/%s/written-after-new-survey", kname[kl], opname[t->op]);
+		vf_violation(key, "ctx %d op %s: a receive pending across the send of survey %u returned response frame #%u (%s) for survey %u, which was written %llu us after that send had returned", t->idx,
+		    opname[t->op], e2, serial, kname[kl], seq, (unsigned long long) ((tb - t->t_ret) / 1000));
 	} else if (certainly_late(c, seq, tb)) {
 		snprintf(key, sizeof(key), "C07/late-delivered/%s/%s", kname[kl], srcname[atomic_load(&e->src) % SRC_N]);
 		vf_violation(key, "ctx %d op %s: response frame #%u (%s) was written %llu us after the latest possible deadline (send returned + T=%u ms) of survey %u and was delivered", t->idx,
@@ -976,6 +1053,7 @@ judge_msg(cthr *t, nng_msg *m, uint32_t e1, uint32_t e2)
 		bad = false;
 		t->dlv[kl]++;
 		t->dlv_seen[t->op][kl] = true;
+		if (seq != e2) t->old_before_new++;
 	}
 	nng_msg_free(m);
 	return !bad;
@@ -985,12 +1063,10 @@ enum { RES_MSG, RES_TIMEOUT, RES_ESTATE, RES_CANCEL };
 
 // Judge the outcome of one receive.  Returns the result code.
 static int
-r_finish(cthr *t, rcv *rc)
+r_judge(cthr *t, rcv *rc, int rv, nng_msg *m)
 {
-	nng_msg *m;
 	char     key[128];
-	int      rv = r_wait(t, rc, &m);
-	uint64_t t_done = rc->o->t_done;
+	uint64_t t_done = rc->t_done;
 	uint64_t dl_lo = rc->t_call + (uint64_t) rc->T * MS; // earliest possible deadline
 	bool     never = rc->seq == 0;
 	bool     expired = !never && rc->t_rcall >= rc->t_ret + (uint64_t) rc->T * MS + LATE_NS;
@@ -1009,33 +1085,44 @@ r_finish(cthr *t, rcv *rc)
 			}
 			if (rv == 0) {
 				t->expiry_probe_msgs++;
-				judge_msg(t, m, rc->seq, rc->seq);
+				judge_msg(t, m, rc->seq, rc->seq, t_done);
 			}
 		}
 		return rv;
 	}
 	switch (rv) {
 	case 0:
-		judge_msg(t, m, rc->seq, t->seq);
+		judge_msg(t, m, rc->seq, t->seq, t_done);
 		t->res_seen[t->op][t->dir][RES_MSG] = true;
+		if (rc->multi) t->multi_msgs++;
+		if (rc->nonblock) t->nonblock_msgs++;
 		break;
 	case NNG_ETIMEDOUT: {
 		uint64_t dl = dl_lo;
 		bool     own = false;
-		if (rc->tmo > 0 && rc->t_rcall + (uint64_t) rc->tmo * MS < dl) {
-			dl = rc->t_rcall + (uint64_t) rc->tmo * MS;
+		if (rc->tmo_eff > 0 && rc->t_rcall + (uint64_t) rc->tmo_eff * MS < dl) {
+			dl = rc->t_rcall + (uint64_t) rc->tmo_eff * MS;
 			own = true;
 		}
-		if (t_done + MS < dl) {
+		if (rc->nonblock) {
+			// only nng_*_recvmsg turns the zero timeout into NNG_EAGAIN
+			snprintf(key, sizeof(key), "C07/disturbed/recv-error/%s", errname(rv));
+			vf_violation(key, "ctx %d op %s: non-blocking receive on survey %u failed with %s", t->idx, opname[t->op], rc->seq, nng_strerror(rv));
+		} else if (t_done + MS < dl) {
 			snprintf(key, sizeof(key), "C07/deadline/timeout-early/%s", own ? "own-timeout" : "clamped");
 			vf_violation(key, "ctx %d op %s: receive (aio timeout %d ms, issued %llu us after survey %u with T=%u ms was sent) failed with NNG_ETIMEDOUT %llu us before the earliest legitimate instant",
 			    t->idx, opname[t->op], rc->tmo, (unsigned long long) ((rc->t_rcall - rc->t_call) / 1000), rc->seq, rc->T, (unsigned long long) ((dl - t_done) / 1000));
 		} else if (own) {
 			t->own_timeouts++;
+			if (rc->tmo == NNG_DURATION_DEFAULT) t->rcvtimeo_own++;
 		} else {
 			t->deadline_timeouts++;
+			t->deadline_by_tm[t->tmode]++;
+			if (rc->opt_changed) t->opt_change_deadlines++;
+			if (rc->tmo == NNG_DURATION_DEFAULT && rc->tmo_eff > 0) t->rcvtimeo_clamped++;
 			t->clamp_by[rc->tmo == NNG_DURATION_INFINITE ? 1 : rc->tmo == NNG_DURATION_DEFAULT ? 2 : rc->tmo >= LONG_MS ? 0 : 3]++;
 		}
+		if (rc->multi) t->multi_timeouts++;
 		if (!superseded && own) {
 			t->tainted = true;
 			if (dl - MS < t->taint_at) t->taint_at = dl - MS;
@@ -1048,6 +1135,8 @@ r_finish(cthr *t, rcv *rc)
 			snprintf(key, sizeof(key), "C07/live-survey/estate/%s", opname[t->op]);
 			vf_violation(key, "ctx %d op %s: receive issued %llu us after survey %u (T=%u ms) was sent, with no earlier receive on it timed out or cancelled, failed with NNG_ESTATE %llu us before the deadline",
 			    t->idx, opname[t->op], (unsigned long long) ((rc->t_rcall - rc->t_call) / 1000), rc->seq, rc->T, (unsigned long long) ((dl_lo - t_done) / 1000));
+			fprintf(stderr, "DBG estate: ctx %d survey %u T=%u rcvtimeo=%d optchanged=%d tmode=%d sendtook=%llu us\n", t->idx, rc->seq, rc->T, (int) t->rcvtimeo, t->opt_changed, t->tmode, (unsigned long long) ((rc->t_ret - rc->t_call) / 1000));
+			rlog_dump(t);
 		} else if (rc->tainted) {
 			t->after_taint[1]++;
 		} else {
@@ -1055,9 +1144,17 @@ r_finish(cthr *t, rcv *rc)
 		}
 		t->res_seen[t->op][t->dir][RES_ESTATE] = true;
 		break;
+	case NNG_EAGAIN:
+		if (!rc->nonblock) {
+			vf_violation("C07/disturbed/recv-error/EAGAIN", "ctx %d op %s: a blocking receive on survey %u failed with NNG_EAGAIN", t->idx, opname[t->op], rc->seq);
+		} else {
+			t->nonblock_again++;
+		}
+		break;
 	case NNG_ECANCELED:
 		if (superseded) {
 			t->cancelled_by_send++;
+			if (rc->multi) t->multi_cancelled++;
 		} else if (rc->cancelled) {
 			t->cancel_won++;
 			t->tainted = true;
@@ -1075,6 +1172,90 @@ r_finish(cthr *t, rcv *rc)
 	return rv;
 }
 
+static void
+rlog_add(cthr *t, rcv *rc, int rv)
+{
+	if (rc->seq != t->seq || rc->seq == 0) return;
+	int i = t->nlog++ % 12;
+	t->rlog[i].tmo = rc->tmo;
+	t->rlog[i].tmo_eff = rc->tmo_eff;
+	t->rlog[i].rv = rv;
+	t->rlog[i].kind = (rc->nonblock ? 2 : rc->sync ? 1 : 0) + (rc->multi ? 4 : 0);
+	t->rlog[i].at_us = (uint32_t) ((rc->t_rcall - rc->t_call) / 1000);
+	t->rlog[i].done_us = (uint32_t) ((rc->t_done - rc->t_call) / 1000);
+}
+
+static void
+rlog_dump(cthr *t)
+{
+	for (int k = t->nlog > 12 ? t->nlog - 12 : 0; k < t->nlog; k++) {
+		int i = k % 12;
+		fprintf(stderr, "DBG recv kind=%d tmo=%d eff=%d issued=+%u us done=+%u us rv=%d\n", t->rlog[i].kind, t->rlog[i].tmo, t->rlog[i].tmo_eff, t->rlog[i].at_us, t->rlog[i].done_us, t->rlog[i].rv);
+	}
+}
+
+static int
+r_finish(cthr *t, rcv *rc)
+{
+	nng_msg *m;
+	int      rv = r_wait(t, rc, &m);
+	rlog_add(t, rc, rv);
+	return r_judge(t, rc, rv, m);
+}
+
+// the synchronous forms: nng_ctx_recvmsg / nng_recvmsg, blocking (the timeout
+// is NNG_OPT_RECVTIMEO, clamped to the survey like any other) or NNG_FLAG_NONBLOCK
+static int
+r_sync(cthr *t, bool nonblock)
+{
+	rcv      rc;
+	nng_msg *m = NULL;
+	memset(&rc, 0, sizeof(rc));
+	rc.sync = true;
+	rc.nonblock = nonblock;
+	rc.tmo = nonblock ? NNG_DURATION_ZERO : NNG_DURATION_DEFAULT;
+	rc.tmo_eff = nonblock ? 0 : t->rcvtimeo;
+	rc.seq = t->seq;
+	rc.T = t->T;
+	rc.t_call = t->t_call;
+	rc.t_ret = t->t_ret;
+	rc.tainted = t->tainted;
+	rc.opt_changed = t->opt_changed;
+	rc.t_rcall = vf_now_ns();
+	int rv = t->is_sock ? nng_recvmsg(t->sock, &m, nonblock ? NNG_FLAG_NONBLOCK : 0) : nng_ctx_recvmsg(t->ctx, &m, nonblock ? NNG_FLAG_NONBLOCK : 0);
+	rc.t_done = rc.t_rstarted = vf_now_ns();
+	if (t->nrecv++ == 0) t->first_rstart = rc.t_rstarted;
+	t->last_rstart = rc.t_rstarted;
+	if (rv != 0) m = NULL;
+	if (rv == 0 && m == NULL) {
+		vf_violation("C07/response-garbled/no-message", "ctx %d: synchronous receive returned 0 without a message", t->idx);
+		rv = NNG_EINTERNAL;
+	}
+	if (nonblock) {
+		t->nonblock_recvs++;
+	} else {
+		t->sync_recvs++;
+		t->sync_res[rv == 0 ? 0 : rv == NNG_ETIMEDOUT ? 1 : rv == NNG_ESTATE ? 2 : 3]++;
+	}
+	rlog_add(t, &rc, rv);
+	return r_judge(t, &rc, rv, m);
+}
+
+static void
+set_rcvtimeo(cthr *t, nng_duration v)
+{
+	int rv = t->is_sock ? nng_socket_set_ms(t->sock, NNG_OPT_RECVTIMEO, v) : nng_ctx_set_ms(t->ctx, NNG_OPT_RECVTIMEO, v);
+	if (rv != 0) vf_harness_fail("set recv timeout: %s", nng_strerror(rv));
+	t->rcvtimeo = v;
+}
+
+static void
+set_survey_time(cthr *t, uint32_t T)
+{
+	int rv = t->is_sock ? nng_socket_set_ms(t->sock, NNG_OPT_SURVEYOR_SURVEYTIME, (nng_duration) T) : nng_ctx_set_ms(t->ctx, NNG_OPT_SURVEYOR_SURVEYTIME, (nng_duration) T);
+	if (rv != 0) vf_harness_fail("set survey time: %s", nng_strerror(rv));
+}
+
 // send a new survey; it becomes the most recent one whatever happens
 static int
 t_send(cthr *t, int dir, uint32_t T)
@@ -1083,12 +1264,11 @@ t_send(cthr *t, int dir, uint32_t T)
 	size_t   size = VF_BODY_MIN + vf_below(&t->rng, 64);
 	int      rv;
 	if (nng_msg_alloc(&m, size) != 0) vf_harness_fail("msg alloc");
-	if (t->is_sock) {
-		rv = nng_socket_set_ms(t->sock, NNG_OPT_SURVEYOR_SURVEYTIME, (nng_duration) T);
+	if (t->tmode == TM_EXPLICIT) {
+		set_survey_time(t, T);
 	} else {
-		rv = nng_ctx_set_ms(t->ctx, NNG_OPT_SURVEYOR_SURVEYTIME, (nng_duration) T);
+		T = t->T_fixed; // whatever the context got when it was opened
 	}
-	if (rv != 0) vf_harness_fail("set survey time: %s", nng_strerror(rv));
 	uint32_t seq = t->seq + 1;
 	srec    *e = st_get((uint32_t) t->idx, seq);
 	if (e == NULL) vf_harness_fail("survey table full (ctx %d seq %u)", t->idx, seq);
@@ -1114,6 +1294,8 @@ t_send(cthr *t, int dir, uint32_t T)
 	t->tainted = false;
 	t->taint_at = UINT64_MAX;
 	t->nrecv = 0;
+	t->nlog = 0;
+	t->opt_changed = false;
 	atomic_store(&e->t_ret, tr);
 	if ((rv = nng_aio_result(t->saio)) != 0) {
 		if ((m = nng_aio_get_msg(t->saio)) != NULL) nng_msg_free(m);
@@ -1126,6 +1308,7 @@ t_send(cthr *t, int dir, uint32_t T)
 		return rv;
 	}
 	t->surveys++;
+	t->surveys_by_tm[t->tmode]++;
 	t->dirs[dir]++;
 	return 0;
 }
@@ -1134,6 +1317,7 @@ t_send(cthr *t, int dir, uint32_t T)
 static int
 long_tmo(cthr *t)
 {
+	if (t->T > 2000) return 150 + (int) vf_below(&t->rng, 150); // nobody waits for an hour-long survey
 	switch (vf_below(&t->rng, 8)) {
 	case 0: return NNG_DURATION_INFINITE;
 	case 1: return NNG_DURATION_DEFAULT;
@@ -1148,18 +1332,20 @@ long_tmo(cthr *t)
 	}
 }
 
-// responses to the current survey that were demonstrably written early while
-// this context kept receiving must all have been delivered
+// Responses to the current survey that demonstrably reached the surveyor
+// protocol while the survey was live and this context kept receiving must all
+// have been delivered.  "Demonstrably reached": a frame written LATER on the
+// same FIFO pipe was handed to some receive that was seen complete before this
+// survey's earliest possible deadline (and before the first own-timeout of a
+// receive, which ends the survey in this implementation).  No wall-clock
+// allowance is involved.
 static void
 scan_lost(cthr *t)
 {
 	char key[128];
-	if (t->T < 100 || t->seq == 0) return;
-	uint64_t limit = t->t_call + (uint64_t) t->T * MS / 2;
-	if (t->taint_at != UINT64_MAX) {
-		uint64_t l2 = t->taint_at > 50 * MS ? t->taint_at - 50 * MS : 0;
-		if (l2 < limit) limit = l2;
-	}
+	if (t->T > 2000 || t->seq == 0) return;
+	uint64_t limit = t->t_call + (uint64_t) t->T * MS - 2 * MS;
+	if (t->taint_at != UINT64_MAX && t->taint_at < limit) limit = t->taint_at;
 	uint32_t n = atomic_load(&G.rr_n);
 	bool     any = false;
 	for (uint32_t i = t->scan_from; i < n; i++) {
@@ -1167,33 +1353,29 @@ scan_lost(cthr *t)
 		uint64_t ta = atomic_load(&e->t_after);
 		if (ta == 0 || ta > limit) continue;
 		if (atomic_load(&e->ctx) != (uint32_t) t->idx || atomic_load(&e->seq) != t->seq) continue;
-		uint32_t kl = atomic_load(&e->klass), src = atomic_load(&e->src);
-		if (kl == K_NOBIT || kl == K_STALE || src == SRC_XRESP) continue;
+		uint32_t kl = atomic_load(&e->klass), src = atomic_load(&e->src), pipe = atomic_load(&e->pipe);
+		if (kl == K_NOBIT || kl == K_STALE || kl == K_FAKE || kl == K_HOP || src == SRC_XRESP) continue;
+		uint32_t witness = 0;
+		for (uint32_t j = i + 1; j < n && witness == 0; j++) {
+			rrec *l = &G.rr[j];
+			if (atomic_load(&l->pipe) != pipe || atomic_load(&l->src) != src || atomic_load(&l->t_before) < ta || !atomic_load(&l->delivered)) continue;
+			uint64_t td = atomic_load(&l->t_dlv);
+			if (td != 0 && td <= limit) witness = j;
+		}
+		if (witness == 0) {
+			if (!atomic_load(&e->delivered)) t->lost_unconfirmed++;
+			continue;
+		}
 		if (atomic_load(&e->delivered)) {
 			t->must_checked++;
 			any = true;
 			continue;
 		}
 		snprintf(key, sizeof(key), "C07/live-survey/response-lost/%s/%s", srcname[src % SRC_N], opname[t->op]);
-		// A raw TCP connection may have been given up by the surveyor (after a
-		// short frame) without the writer knowing: the frame certainly reached
-		// the protocol only if something written LATER on the same connection
-		// was delivered to somebody.
-		uint32_t conn = atomic_load(&e->conn);
-		int      later = 0, later_dlv = 0;
-		for (uint32_t j = i + 1; j < n; j++) {
-			if (atomic_load(&G.rr[j].conn) != conn || atomic_load(&G.rr[j].src) != src || atomic_load(&G.rr[j].t_after) == 0 || atomic_load(&G.rr[j].t_before) < ta) continue;
-			later++;
-			if (atomic_load(&G.rr[j].delivered)) later_dlv++;
-		}
-		if (src == SRC_TCP && later_dlv == 0) {
-			t->lost_unconfirmed++;
-			continue;
-		}
-		vf_violation(key, "ctx %d op %s: response frame #%u (%s) to survey %u was written %llu us after the survey was sent (T=%u ms; send took %llu us), the context kept receiving (%d receives, first issued at %llu us, last at %llu us) until a receive timed out, and it was never delivered (same connection afterwards: %d frames written, %d delivered)",
-		    t->idx, opname[t->op], i, kname[kl % K_N], t->seq, (unsigned long long) ((ta - t->t_call) / 1000), t->T, (unsigned long long) ((t->t_ret - t->t_call) / 1000), t->nrecv,
-		    (unsigned long long) ((t->first_rstart - t->t_call) / 1000), (unsigned long long) ((t->last_rstart - t->t_call) / 1000), later, later_dlv);
+		vf_violation(key, "ctx %d op %s: response frame #%u (%s) to survey %u was written %llu us after the survey was sent (T=%u ms), frame #%u written after it on the same connection was delivered %llu us after the survey was sent, the context kept receiving (%d receives) until a receive timed out, and #%u was never delivered",
+		    t->idx, opname[t->op], i, kname[kl % K_N], t->seq, (unsigned long long) ((ta - t->t_call) / 1000), t->T, witness, (unsigned long long) ((atomic_load(&G.rr[witness].t_dlv) - t->t_call) / 1000), t->nrecv, i);
 		dbg_dump(t->t_call - 30 * MS, t->t_call + 100 * MS);
+		rlog_dump(t);
 	}
 	if (any) t->must_rounds++;
 }
@@ -1201,47 +1383,80 @@ scan_lost(cthr *t)
 // Receive until the survey is over.  mixed: aio timeouts shorter than the
 // remaining time as well.  Returns true if it ended with a receive that was
 // pending until it timed out (so everything that arrived before that instant
-// was handed to a receive).
+// was handed to a receive).  With stop_after == 0 it sometimes keeps two or
+// three receives pending at once, and uses the synchronous and non-blocking
+// forms as well.
 static bool
 collect(cthr *t, bool mixed, int stop_after)
 {
 	vf_rng *r = &t->rng;
 	int     got = 0;
-	bool    timed_out = false;
+	bool    timed_out = false, huge = t->T > 2000;
 	for (int i = 0; i < 400; i++) {
 		uint64_t now = vf_now_ns(), end = t->t_ret + (uint64_t) t->T * MS + LATE_NS;
-		rcv      rc;
-		int      tmo;
+		rcv      rc[3];
+		int      n = 1, rvs[3];
 		if (now >= end) break;
-		if (mixed && vf_chance(r, 2, 3)) {
-			int left = (int) ((end - now) / MS);
-			if (vf_chance(r, 1, 3) && left > 16) {
-				tmo = left - 6 - (int) vf_below(r, 6); // ends just before the deadline
-			} else {
-				tmo = 1 + (int) vf_below(r, t->T / 3);
-			}
-		} else {
-			tmo = long_tmo(t);
-		}
 		bool was_tainted = t->tainted;
-		r_start(t, &rc, tmo, NULL);
-		int rv = r_finish(t, &rc);
-		if (rv == 0) {
-			if (was_tainted) t->after_taint[0]++;
-			if (++got == stop_after) return false;
-			continue;
-		}
-		if (rv == NNG_ETIMEDOUT) {
-			if (was_tainted) {
-				t->after_taint[2]++;
-			} else {
-				timed_out = true;
+		uint32_t form = vf_below(r, 20);
+		if (dbg_off & 1) form = form < 5 ? 5 : form;
+		if (dbg_off & 2) form = form >= 5 && form < 11 ? 11 : form;
+		if (stop_after == 0 && !huge && form < 2) {
+			// non-blocking poll: a message, NNG_EAGAIN, or NNG_ESTATE
+			rvs[0] = r_sync(t, true);
+			if (rvs[0] == NNG_EAGAIN) {
+				vf_usleep((int) vf_below(r, 1500));
+				continue;
 			}
-			if (!t->tainted || !mixed) break; // the survey's own deadline
-			if (vf_chance(r, 1, 3)) break;
-			continue; // what does a receive say after one timed out?
+		} else if (stop_after == 0 && !huge && form < 5) {
+			// blocking synchronous receive bounded by NNG_OPT_RECVTIMEO
+			rvs[0] = r_sync(t, false);
+		} else {
+			if (stop_after == 0 && !huge && !was_tainted && form < 11) n = 2 + (int) vf_below(r, 2);
+			for (int j = 0; j < n; j++) {
+				int tmo;
+				now = vf_now_ns();
+				if (mixed && vf_chance(r, 2, 3)) {
+					int left = end > now ? (int) ((end - now) / MS) : 0;
+					if (vf_chance(r, 1, 3) && left > 16) {
+						tmo = left - 6 - (int) vf_below(r, 6); // ends just before the deadline
+					} else {
+						tmo = 1 + (int) vf_below(r, t->T / 3);
+					}
+				} else {
+					tmo = long_tmo(t);
+				}
+				r_start(t, &rc[j], tmo, NULL);
+				rc[j].multi = n > 1;
+				// an earlier member of the batch with a short timeout of its
+				// own may already have ended the survey
+				for (int q = 0; q < j; q++) {
+					if (rc[q].tmo_eff > 0 && rc[q].t_rcall + (uint64_t) rc[q].tmo_eff * MS < t->t_call + (uint64_t) t->T * MS) rc[j].tainted = true;
+				}
+			}
+			if (n > 1) t->multi_posted += n;
+			for (int j = 0; j < n; j++) rvs[j] = r_finish(t, &rc[j]);
 		}
-		break;
+		bool go_on = false, stop = false;
+		for (int j = 0; j < n; j++) {
+			int rv = rvs[j];
+			if (rv == 0) {
+				if (was_tainted) t->after_taint[0]++;
+				if (huge) t->huge_msgs++;
+				if (++got == stop_after) stop = true;
+				go_on = true;
+			} else if (rv == NNG_ETIMEDOUT) {
+				if (was_tainted) {
+					t->after_taint[2]++;
+				} else {
+					timed_out = true;
+				}
+				// after a receive's own timeout: what does the next one say?
+				if (t->tainted && mixed && !huge && !vf_chance(r, 1, 3)) go_on = true;
+			}
+		}
+		if (stop) return false;
+		if (!go_on) break;
 	}
 	return timed_out;
 }
@@ -1284,8 +1499,13 @@ ctx_thread(void *arg)
 	r_start(t, &rc, vf_chance(r, 1, 2) ? 50 : LONG_MS, NULL);
 	r_finish(t, &rc);
 
-	for (int x = 0; x < t->cc->rounds; x++) {
+	for (int x = 0; x < t->rounds; x++) {
 		uint32_t k = vf_below(r, 100);
+		if (vf_chance(r, 1, 4) && !(dbg_off & 4)) {
+			// what NNG_DURATION_DEFAULT and the synchronous receives mean
+			static const nng_duration tv[6] = { NNG_DURATION_INFINITE, 15, 60, 150, 400, 20000 };
+			set_rcvtimeo(t, tv[vf_below(r, 6)]);
+		}
 		int      op = k < 26 ? OP_COLLECT : k < 38 ? OP_MIXED : k < 56 ? OP_SUPERSEDE : k < 66 ? OP_SENDOVER : k < 76 ? OP_SENDOVER_DL : k < 84 ? OP_ABORT : OP_QUICK;
 		t->op = op;
 		t->ops[op]++;
@@ -1295,6 +1515,14 @@ ctx_thread(void *arg)
 			static const int dirs[10] = { D_PROMPT, D_PROMPT, D_PROMPT, D_SLOW, D_SILENT, D_SILENT, D_LATE, D_LATE, D_MID, D_MID };
 			int dir = dirs[vf_below(r, 10)];
 			if (t_send(t, dir, pick_T(r, 40, 400)) != 0) break;
+			if (t->tmode == TM_EXPLICIT && t->T >= 60 && vf_chance(r, 1, 6) && !(dbg_off & 8)) {
+				// changing the option while a survey is live is for the NEXT
+				// survey: this one keeps the deadline it was started with
+				if (vf_chance(r, 1, 2)) vf_usleep((int) vf_below(r, 2000));
+				set_survey_time(t, vf_chance(r, 1, 2) ? t->T / 4 : t->T * 3);
+				t->opt_changes++;
+				t->opt_changed = true;
+			}
 			if (vf_chance(r, 1, 5)) {
 				// nobody is receiving when the deadline passes: whatever was
 				// queued by then (or arrives later) must stay undelivered
@@ -1332,10 +1560,20 @@ ctx_thread(void *arg)
 			static const int dirs[4] = { D_SILENT, D_SLOW, D_LATE, D_MID };
 			uint32_t         T1 = op == OP_SENDOVER_DL ? vf_range(r, 40, 90) : pick_T(r, 40, 400);
 			if (t_send(t, dirs[vf_below(r, 4)], T1) != 0) break;
+			rcv more[2];
+			int nmore = vf_chance(r, 1, 2) && !(dbg_off & 2) ? (int) vf_range(r, 1, 2) : 0;
 			r_start(t, &rc, long_tmo(t), NULL);
+			for (int j = 0; j < nmore; j++) {
+				r_start(t, &more[j], long_tmo(t), NULL);
+				more[j].multi = true;
+			}
+			if (nmore) {
+				rc.multi = true;
+				t->multi_posted += nmore + 1;
+			}
 			if (op == OP_SENDOVER_DL) {
 				// aim at the instant the old survey's timer fires
-				uint64_t at = t->t_call + (uint64_t) T1 * MS + (uint64_t) vf_below(r, 3500) * 1000ULL;
+				uint64_t at = t->t_call + (uint64_t) t->T * MS + (uint64_t) vf_below(r, 3500) * 1000ULL;
 				at = at > 500000 ? at - 500000 : at;
 				while (vf_now_ns() < at) vf_usleep(100);
 			} else if (vf_chance(r, 2, 3)) {
@@ -1344,6 +1582,7 @@ ctx_thread(void *arg)
 			int rv2 = t_send(t, D_PROMPT, pick_T(r, 100, 260));
 			int rv1 = r_finish(t, &rc);
 			if (rv1 == 0) t->completed_before_send++;
+			for (int j = 0; j < nmore; j++) r_finish(t, &more[j]); // every waiter, not just the head
 			if (rv2 != 0) break;
 			if (vf_chance(r, 1, 2)) {
 				if (collect(t, false, 0)) scan_lost(t);
@@ -1365,6 +1604,14 @@ ctx_thread(void *arg)
 			break;
 		}
 		default:
+			if (t->tmode == TM_EXPLICIT && x + 2 < t->rounds && vf_chance(r, 1, 8) && !(dbg_off & 8)) {
+				// an hour-long survey: responses arrive, nothing wraps; the next
+				// round's survey replaces it
+				if (t_send(t, D_PROMPT, 3600000) != 0) break;
+				t->huge_rounds++;
+				collect(t, false, 1 + (int) vf_below(r, 3));
+				break;
+			}
 			if (t_send(t, vf_chance(r, 3, 4) ? D_PROMPT : D_SLOW, pick_T(r, 40, 400)) != 0) break;
 			collect(t, false, 1 + (int) vf_below(r, 2));
 			break;
@@ -1382,7 +1629,7 @@ ctx_thread(void *arg)
 	}
 	// the last survey runs out; then there is nothing live any more
 	t->op = OP_PROBE;
-	if (t->seq != 0) probe_expired(t);
+	if (t->seq != 0 && t->T <= 2000) probe_expired(t);
 	return NULL;
 }
 
@@ -1396,8 +1643,8 @@ run_case(long idx, const casecfg *cc)
 	char       url[128], durl[MAXREAL + 1][128];
 	int        rv, ndial = 0;
 
-	vf_case_begin(idx, "adv=%s tran=%s ctx=%d%s real=%d rounds=%d kills=%d jitter=%d/%dus expire-delay=%d/%d-%dus key=%llx", akname[cc->adv], vf_tran_names[cc->tran], cc->nctx,
-	    cc->use_sock ? "+sock" : "", cc->nreal, cc->rounds, cc->kills, cc->jit_permille, cc->jit_us, cc->exp_permille, cc->exp_min_us, cc->exp_us, (unsigned long long) cc->key);
+	vf_case_begin(idx, "adv=%s tran=%s ctx=%d%s survey-time=%c%c%c%c/%ums real=%d rounds=%d kills=%d jitter=%d/%dus expire-delay=%d/%d-%dus key=%llx", akname[cc->adv], vf_tran_names[cc->tran], cc->nctx,
+	    cc->use_sock ? "+sock" : "", "SID"[cc->tmode[0]], "SID"[cc->tmode[1]], "SID"[cc->tmode[2]], "SID"[cc->tmode[3]], cc->sock_T, cc->nreal, cc->rounds, cc->kills, cc->jit_permille, cc->jit_us, cc->exp_permille, cc->exp_min_us, cc->exp_us, (unsigned long long) cc->key);
 	vf_watchdog(300);
 	G.nonce = cc->nonce;
 	G.nctx = cc->nctx;
@@ -1444,6 +1691,7 @@ run_case(long idx, const casecfg *cc)
 		for (int j = 0; j < cc->nwork[i]; j++) {
 			rworker *w = &P.w[P.nw];
 			w->s = P.socks[i];
+			w->sock_idx = i;
 			w->is_sock = cc->resp_sock[i] && j == 0;
 			vf_rng_seed(&w->rng, cc->key, 500 + (uint64_t) P.nw);
 			if (!w->is_sock && (rv = nng_ctx_open(&w->ctx, w->s)) != 0) vf_harness_fail("respondent ctx open");
@@ -1461,18 +1709,33 @@ run_case(long idx, const casecfg *cc)
 
 	vf_pt_jitter(cc->key, cc->jit_permille, cc->jit_us);
 	if (cc->exp_permille > 0) vf_pt_target(NNI_VP_AIO_EXPIRE_BEFORE_CANCEL, cc->exp_permille, cc->exp_min_us, cc->exp_us);
+	// Contexts that never set the survey time: those opened while the socket
+	// still has its default get 1 s, those opened after the socket's option
+	// was set get that value - whatever the socket is set to later on.
+	for (int pass = 0; pass < 2; pass++) {
+		if (pass == 1 && (rv = nng_socket_set_ms(surv, NNG_OPT_SURVEYOR_SURVEYTIME, (nng_duration) cc->sock_T)) != 0) vf_harness_fail("set survey time: %s", nng_strerror(rv));
+		for (int i = 0; i < cc->nctx; i++) {
+			cthr *t = &th[i];
+			bool  is_sock = cc->use_sock && i == 0;
+			int   tm = is_sock ? TM_EXPLICIT : cc->tmode[i];
+			if ((tm == TM_DEFAULT) != (pass == 0)) continue;
+			t->idx = i;
+			t->cc = cc;
+			t->sock = surv;
+			t->is_sock = is_sock;
+			t->tmode = tm;
+			t->T_fixed = tm == TM_DEFAULT ? 1000 : cc->sock_T;
+			t->rounds = tm == TM_DEFAULT ? (cc->rounds / 5 > 4 ? cc->rounds / 5 : 4) : cc->rounds;
+			t->rcvtimeo = NNG_DURATION_INFINITE;
+			t->taint_at = UINT64_MAX;
+			vf_rng_seed(&t->rng, cc->key, 100 + (uint64_t) i);
+			if (!t->is_sock && (rv = nng_ctx_open(&t->ctx, surv)) != 0) vf_harness_fail("ctx open: %s", nng_strerror(rv));
+			if (nng_aio_alloc(&t->saio, NULL, NULL) != 0) vf_harness_fail("aio alloc");
+			for (int j = 0; j < NROP; j++) rop_init(&t->r[j]);
+		}
+	}
 	for (int i = 0; i < cc->nctx; i++) {
-		cthr *t = &th[i];
-		t->idx = i;
-		t->cc = cc;
-		t->sock = surv;
-		t->is_sock = cc->use_sock && i == 0;
-		t->taint_at = UINT64_MAX;
-		vf_rng_seed(&t->rng, cc->key, 100 + (uint64_t) i);
-		if (!t->is_sock && (rv = nng_ctx_open(&t->ctx, surv)) != 0) vf_harness_fail("ctx open: %s", nng_strerror(rv));
-		if (nng_aio_alloc(&t->saio, NULL, NULL) != 0) vf_harness_fail("aio alloc");
-		for (int j = 0; j < NROP; j++) rop_init(&t->r[j]);
-		if (pthread_create(&pt[i], NULL, ctx_thread, t) != 0) vf_harness_fail("pthread_create");
+		if (pthread_create(&pt[i], NULL, ctx_thread, &th[i]) != 0) vf_harness_fail("pthread_create");
 	}
 	for (int i = 0; i < cc->nctx; i++) pthread_join(pt[i], NULL);
 	vf_pt_off();
@@ -1553,6 +1816,31 @@ run_case(long idx, const casecfg *cc)
 		vf_stat("after_own_timeout_estate", t->after_taint[1]);
 		vf_stat("after_own_timeout_timeout", t->after_taint[2]);
 		vf_stat("fresh_ctx_probes", t->fresh_probes);
+		vf_stat("multi_receives_posted", t->multi_posted);
+		vf_stat("multi_receives_timed_out_together", t->multi_timeouts);
+		vf_stat("multi_receives_got_message", t->multi_msgs);
+		vf_stat("multi_receives_cancelled_by_send", t->multi_cancelled);
+		vf_stat("sync_blocking_recvs", t->sync_recvs);
+		vf_stat("sync_blocking_recv_message", t->sync_res[0]);
+		vf_stat("sync_blocking_recv_timeout", t->sync_res[1]);
+		vf_stat("sync_blocking_recv_estate", t->sync_res[2]);
+		vf_stat("nonblock_recvs", t->nonblock_recvs);
+		vf_stat("nonblock_recv_again", t->nonblock_again);
+		vf_stat("nonblock_recv_message", t->nonblock_msgs);
+		vf_stat("recvtimeo_own_timeouts", t->rcvtimeo_own);
+		vf_stat("recvtimeo_clamped_to_deadline", t->rcvtimeo_clamped);
+		vf_stat("survey_time_changed_mid_survey", t->opt_changes);
+		vf_stat("deadline_timeouts_after_option_change", t->opt_change_deadlines);
+		vf_stat("hour_long_surveys", t->huge_rounds);
+		vf_stat("hour_long_survey_responses", t->huge_msgs);
+		vf_stat("old_survey_response_to_receive_pending_across_send", t->old_before_new);
+		for (int m = 0; m < TM_N; m++) {
+			snprintf(buf, sizeof(buf), "surveys_time_%s", tmname[m]);
+			vf_stat(buf, t->surveys_by_tm[m]);
+			snprintf(buf, sizeof(buf), "deadline_timeouts_time_%s", tmname[m]);
+			vf_stat(buf, t->deadline_by_tm[m]);
+			if (t->deadline_by_tm[m]) vf_class("survey-time/%s/%s/deadline-observed", tmname[m], t->is_sock ? "sock" : "ctx");
+		}
 		vf_stat("undelivered_on_connection_not_known_alive", t->lost_unconfirmed);
 		vf_stat("deadlines_passed_without_receiver", t->idle_expiries);
 	}
@@ -1601,6 +1889,7 @@ int
 main(int argc, char **argv)
 {
 	vf_init(argc, argv);
+	if (getenv("C07_OFF")) dbg_off = atoi(getenv("C07_OFF"));
 	vf_nng_init(4, 2, 2);
 	bool thorough = vf_tier == 1;
 	for (long idx = 0; idx < vf_cases; idx++) {
@@ -1616,8 +1905,14 @@ main(int argc, char **argv)
 		if (!strcmp(vf_mode, "tcpadv")) c.adv = AK_TCP;
 		if (!strcmp(vf_mode, "xresp")) c.adv = AK_XRESP;
 		if (!strcmp(vf_mode, "real")) c.adv = AK_NONE;
-		c.tran = vf_chance(&r, 1, 2) ? VF_T_INPROC : VF_T_TCP;
+		k = vf_below(&r, 5);
+		c.tran = k < 2 ? VF_T_INPROC : k < 4 ? VF_T_TCP : VF_T_IPC;
 		c.nctx = (int) vf_range(&r, 1, MAXCTX);
+		c.sock_T = vf_range(&r, 60, 300);
+		for (int i = 0; i < MAXCTX; i++) {
+			uint32_t q = vf_below(&r, 16);
+			c.tmode[i] = q < 11 || (dbg_off & 16) ? TM_EXPLICIT : q < 14 ? TM_INHERIT : TM_DEFAULT;
+		}
 		c.use_sock = vf_chance(&r, 1, 2);
 		// 1-3 respondents in total
 		c.nreal = c.adv == AK_NONE ? (int) vf_range(&r, 1, 3) : (int) vf_below(&r, 3);
